@@ -2,6 +2,7 @@ package props
 
 import (
 	"fmt"
+	"github.com/tobgu/qframe/aggregation"
 	"os"
 	"runtime"
 	"sort"
@@ -64,6 +65,7 @@ type family struct {
 	tabs    []hx.Table
 	grouper qframe.Grouper
 	ctx     *eval.Context
+	strjoin interface{} // one aggregation.StrJoin function value shared by the operations
 	clauses []qframe.FilterClause
 	orders  []qframe.Order
 }
@@ -130,6 +132,7 @@ func TestC11(t *testing.T) {
 				f.clauses = append(f.clauses, c.Build(hx.KindMap(f.tabs[5])))
 			}
 			f.orders = hx.BuildOrders(sharedOrders)
+			f.strjoin = aggregation.StrJoin(",")
 			f.ctx = eval.NewDefaultCtx()
 			if customCtx {
 				f.ctx = hx.NewCtx()
@@ -154,7 +157,63 @@ func TestC11(t *testing.T) {
 				mi = 4 // more weight on the member that was itself made by adding a column (its column slice has a history)
 			}
 			tab, mn := tabs[mi], c11Names[mi]
-			switch rapid.IntRange(0, 15).Draw(t, "op") {
+			switch rapid.IntRange(0, 17).Draw(t, "op") {
+			case 16:
+				// one aggregation function value (aggregation.StrJoin returns a closure) used by several Aggregate calls at once
+				key := rapid.SampledFrom([]string{"i1", "e1", "b1"}).Draw(t, "sjkey")
+				onShared := rapid.Bool().Draw(t, "sjshared")
+				makers[i] = opMaker{desc: fmt.Sprintf("%s.GroupBy(%s).Aggregate(shared StrJoin value over s1) sharedGrouper=%v", mn, key, onShared), scratch: true, mk: func(f family) func() string {
+					return func() string {
+						agg := qframe.Aggregation{Fn: f.strjoin, Column: "s1", As: "joined"}
+						if onShared {
+							return multiset(f.grouper.Aggregate(agg))
+						}
+						return multiset(f.members[mi].GroupBy(groupby.Columns(key)).Aggregate(agg))
+					}
+				}}
+			case 17:
+				// the slice a view hands out is the caller's copy: it is sorted/overwritten here while others read the frame
+				col := rapid.SampledFrom([]string{"id", "i1", "f1", "b1"}).Draw(t, "slicecol")
+				makers[i] = opMaker{desc: fmt.Sprintf("%s: %s view Slice(), overwritten by the caller", mn, col), mk: func(f family) func() string {
+					return func() string {
+						m := f.members[mi]
+						switch col {
+						case "f1":
+							v, err := m.FloatView(col)
+							if err != nil {
+								return err.Error()
+							}
+							s := v.Slice()
+							out := fmt.Sprint(len(s))
+							for j := range s {
+								s[j] = -777
+							}
+							return out
+						case "b1":
+							v, err := m.BoolView(col)
+							if err != nil {
+								return err.Error()
+							}
+							s := v.Slice()
+							out := fmt.Sprint(len(s))
+							for j := range s {
+								s[j] = !s[j]
+							}
+							return out
+						}
+						v, err := m.IntView(col)
+						if err != nil {
+							return err.Error()
+						}
+						s := v.Slice()
+						out := fmt.Sprint(s)
+						sort.Ints(s)
+						for j := range s {
+							s[j] = -777
+						}
+						return out
+					}
+				}}
 			case 14, 15:
 				// add one new column (each operation its own name): siblings adding columns to the same frame at the same time
 				how := rapid.IntRange(0, 2).Draw(t, "addhow")
